@@ -285,12 +285,14 @@ func slowScale(c *vkit.Case) {
 		off   time.Duration
 		seenB int64
 		pot   bool
+		// when the warm-up run of f ended (the idle period of this function starts there)
+		lastEnd atomic.Int64
 	}
 	var trigs []*trig
 	for _, m := range marks {
 		for i := 0; i < perMark; i++ {
 			t := &trig{grp: xsync.NewGroup(context.Background()), mark: m, off: time.Duration(c.Rand.Intn(120000)-60000) * time.Nanosecond, pot: i%4 == 3}
-			f := func(ctx context.Context) { t.begun.Add(1) }
+			f := func(ctx context.Context) { t.begun.Add(1); t.lastEnd.Store(time.Now().UnixNano()) }
 			if t.pot {
 				t.fn = t.grp.PeriodicOrTrigger(time.Hour, 0, f)
 			} else {
@@ -351,6 +353,9 @@ func slowScale(c *vkit.Case) {
 		go func() {
 			defer wg.Done()
 			target := t0.Add(t.mark + t.off)
+			if le := t.lastEnd.Load(); le != 0 {
+				target = time.Unix(0, le).Add(t.mark + t.off)
+			}
 			if d := time.Until(target) - 300*time.Microsecond; d > 0 {
 				time.Sleep(d)
 			}
